@@ -253,7 +253,9 @@ class C08(Prop):
     rule = ("cases = two-thread grid histories (a sender thread schedules timers with durations 1/5/9/13 units and far "
             "future, cancels some while the receiver is idle or blocked inside receive()/receive_timeout(); the receiver "
             "issues try_receive/receive_timeout/receive) validated against the small-step model, plus stress histories "
-            "checking never-early and cancel-exactness on every timer. non-trivial = history with a cancel (tag cancel) or "
+            "checking never-early and cancel-exactness on every timer, plus interleavings forced through the sync point "
+            "events.ready_event.folded (receiver held after folding the commands while another thread cancels and the "
+            "deadline passes) compared with the model's explicit schedule. non-trivial = history with a cancel (tag cancel) or "
             "a blocked call woken by a timer/command (tag woken), stress histories (tag interleaved); distinct = by trace")
     trusted_base = CONC_TB
     assumptions = CONC_ASSUME + ["fires_without_sender is exercised by the stress run (sender handles are dropped before delivery), not modelled"]
@@ -264,6 +266,7 @@ class C08(Prop):
     def tie(self, stats, tier, seed):
         cmp = getattr(self, "compare", True)
         th = tier == "thorough"
+        core.tie_run(stats, "vq", ["gen-race"], self.nontrivial, cmp)
         core.tie_run(stats, "vq", ["gen-conc", seed + 3, 4000 if th else 500], self.nontrivial, cmp)
         core.tie_run(stats, "vq", ["gen-stress", seed + 3, 12 if th else 4, 10000 if th else 2000], self.nontrivial, cmp)
 
